@@ -48,13 +48,14 @@ VARIABLES prog,      \* [Tasks -> program]
           fdReady,   \* readable fds
           res,       \* [id -> value delivered at the next resume]
           hasQuit,
+          sendscr,   \* [Tasks -> remaining per-call socket outcomes of a Send in progress]
           owner,     \* [Locks -> 0 | task]
           waiting,   \* [Locks -> set of tasks]
           timer,     \* [st, cfg, next, cancelled, fires]
           setup,     \* FALSE until programs are chosen
           last, hist
 svars == <<prog, pc, alive, subpc, ready, hub, incoming, pinged, ev, now, fdReady,
-           res, hasQuit, owner, waiting, timer, setup>>
+           res, hasQuit, owner, waiting, timer, setup, sendscr>>
 vars == <<svars, last, hist>>
 view == <<svars, last>>
 viewE == svars
@@ -75,7 +76,7 @@ Init ==
   /\ subpc = [t \in Tasks |-> 0] /\ ready = <<>> /\ hub = {} /\ incoming = <<>>
   /\ pinged = FALSE /\ ev = FALSE /\ now = 0 /\ fdReady = {}
   /\ res = [x \in Ids |-> "none"]
-  /\ hasQuit = FALSE /\ owner = [L \in Locks |-> 0] /\ waiting = [L \in Locks |-> {}]
+  /\ hasQuit = FALSE /\ sendscr = [t \in Tasks |-> <<>>] /\ owner = [L \in Locks |-> 0] /\ waiting = [L \in Locks |-> {}]
   /\ timer = NoTimer /\ setup = FALSE
   /\ last = [a |-> "Init", args |-> [x |-> 0], alts |-> {}, exp |-> [x |-> 0]] /\ hist = <<>>
 
@@ -108,7 +109,7 @@ Setup(p) ==
   /\ setup' = TRUE /\ prog' = p /\ alive' = Tasks
   /\ ready' = [i \in 1..NT |-> i]
   /\ Sig(TRUE, FALSE)
-  /\ UNCHANGED <<pc, subpc, hub, incoming, now, fdReady, res, hasQuit, owner, waiting, timer>>
+  /\ UNCHANGED <<pc, subpc, hub, incoming, now, fdReady, res, hasQuit, owner, waiting, timer, sendscr>>
   /\ Log("Setup", [p |-> p], <<>>)
 
 ----------------------------------------------------------------------------
@@ -142,25 +143,54 @@ ReadyAfter(t, ms) ==
   ELSE IF ms.fin = "op" /\ prog[t][ms.pc].op = "Call" THEN <<SubId(t)>> \o rest
   ELSE rest
 
-UserStep(t) ==
-  \E ms \in RunLocks(t, [pc |-> pc[t], got |-> res[t], ran |-> <<>>, owner |-> owner,
-                         waiting |-> waiting, woken |-> <<>>, fin |-> "-"]) :
+\* write readiness: sockets used by Send are always writable (pseudo fd per task)
+WFd(t) == IF t = 1 THEN "w1" ELSE IF t = 2 THEN "w2" ELSE "w3"
+IsW(f) == f \in {"w1", "w2", "w3"}
+
+\* a Send whose socket took only part of the data (or nothing): the return function registers the
+\* task for writability again and aborts the resume - the task's generator is NOT resumed
+SendRetry(t) ==
+  /\ ready' = Tail(ready)
+  /\ incoming' = Register(t, NoTO, WFd(t))
+  /\ sendscr' = [sendscr EXCEPT ![t] = Tail(@)]
+  /\ res' = [res EXCEPT ![t] = "none"]
+  /\ Sig(FALSE, TRUE)
+  /\ UNCHANGED <<prog, pc, alive, subpc, hub, now, fdReady, hasQuit, owner, waiting, timer, setup>>
+  /\ Log("Cycle", [t |-> t], <<>>)
+
+UserRun(t) ==
+  LET prev == IF pc[t] > 1 /\ pc[t] - 1 <= Len(prog[t]) THEN prog[t][pc[t] - 1]
+              ELSE [op |-> "-", fd |-> "-"]
+      midSend == sendscr[t] # <<>>
+      \* value the resume delivers: Recv / Send post-process the hub's result in a return function
+      got0 == IF midSend THEN "sent"
+              ELSE IF prev.op = "Recv"
+                   THEN (IF res[t] = "fd" /\ prev.fd \in fdReady THEN "data" ELSE "none")
+                   ELSE res[t]
+      fd1 == IF ~midSend /\ prev.op = "Recv" /\ got0 = "data" THEN fdReady \ {prev.fd} ELSE fdReady
+      MS == RunLocks(t, [pc |-> pc[t], got |-> got0, ran |-> <<>>, owner |-> owner,
+                         waiting |-> waiting, woken |-> <<>>, fin |-> "-"])
+  IN
+  \E ms \in MS :
     LET rest == Tail(ready) \o ms.woken
         wk == Range(ms.woken)
         res1 == [x \in Ids |-> IF x \in wk THEN "true" ELSE IF x = t THEN "none" ELSE res[x]]
         didw == ms.woken # <<>>
+        scr0 == [sendscr EXCEPT ![t] = <<>>]
     IN
-    /\ owner' = ms.owner /\ waiting' = ms.waiting
-    /\ UNCHANGED <<prog, now, fdReady, timer, setup, hub>>
+    /\ owner' = ms.owner /\ waiting' = ms.waiting /\ fdReady' = fd1
+    /\ UNCHANGED <<prog, now, timer, setup, hub>>
     /\ IF ms.fin \in {"done", "dead"} THEN
-         /\ alive' = alive \ {t} /\ ready' = rest /\ res' = res1
+         /\ alive' = alive \ {t} /\ ready' = rest /\ res' = res1 /\ sendscr' = scr0
          /\ pc' = [pc EXCEPT ![t] = ms.pc] /\ Sig(didw, FALSE)
          /\ UNCHANGED <<subpc, incoming, hasQuit>>
        ELSE IF ms.fin = "blocked" THEN
          /\ ready' = rest /\ res' = res1 /\ pc' = [pc EXCEPT ![t] = ms.pc + 1] /\ Sig(didw, FALSE)
+         /\ sendscr' = scr0
          /\ UNCHANGED <<alive, subpc, incoming, hasQuit>>
        ELSE LET o == prog[t][ms.pc] IN
          /\ pc' = [pc EXCEPT ![t] = ms.pc + 1]
+         /\ sendscr' = IF o.op = "Send" THEN [sendscr EXCEPT ![t] = o.sub] ELSE scr0
          /\ CASE o.op = "Resched" ->
                   /\ ready' = Append(rest, t) /\ res' = res1 /\ Sig(didw, FALSE)
                   /\ UNCHANGED <<alive, subpc, incoming, hasQuit>>
@@ -169,9 +199,14 @@ UserStep(t) ==
                   /\ incoming' = Register(t, now + o.d, "-")
                   /\ Sig(didw, TRUE)
                   /\ UNCHANGED <<alive, subpc, hasQuit>>
-              [] o.op = "SelFD" ->
+              [] o.op \in {"SelFD", "Recv"} ->
                   /\ ready' = rest /\ res' = res1
                   /\ incoming' = Register(t, IF o.d = NoTO THEN NoTO ELSE now + o.d, o.fd)
+                  /\ Sig(didw, TRUE)
+                  /\ UNCHANGED <<alive, subpc, hasQuit>>
+              [] o.op = "Send" ->
+                  /\ ready' = rest /\ res' = res1
+                  /\ incoming' = Register(t, NoTO, WFd(t))
                   /\ Sig(didw, TRUE)
                   /\ UNCHANGED <<alive, subpc, hasQuit>>
               [] o.op = "Block" ->
@@ -189,10 +224,11 @@ UserStep(t) ==
                   /\ res' = [res1 EXCEPT ![SubId(t)] = "none"] /\ Sig(TRUE, FALSE)
                   /\ UNCHANGED <<alive, incoming, hasQuit>>
     /\ LogA("Cycle", [t |-> t], ms.ran,
-            LET MS == RunLocks(t, [pc |-> pc[t], got |-> res[t], ran |-> <<>>, owner |-> owner,
-                                   waiting |-> waiting, woken |-> <<>>, fin |-> "-"]) IN
             IF Cardinality(MS) <= 1 THEN {}
             ELSE {[ready |-> ReadyAfter(t, m), reg |-> RegOf(hub)] : m \in MS})
+
+UserStep(t) ==
+  IF sendscr[t] # <<>> /\ Head(sendscr[t]).op \in {"P", "B"} THEN SendRetry(t) ELSE UserRun(t)
 
 \* Cycle, AgainTask of t: runs the sub-function; its blocking operations pass through;
 \* at its end the caller is made the next task to run and receives the value / exception
@@ -201,7 +237,7 @@ SubStep(t) ==
       j == subpc[t]
       id == SubId(t)
       ran == <<<<id, j, res[id]>>>> IN
-  /\ UNCHANGED <<prog, pc, alive, now, fdReady, hasQuit, owner, waiting, timer, setup, hub>>
+  /\ UNCHANGED <<prog, pc, alive, now, fdReady, hasQuit, owner, waiting, timer, setup, hub, sendscr>>
   /\ IF j <= Len(o.sub) THEN
        /\ subpc' = [subpc EXCEPT ![t] = j + 1]
        /\ ready' = Tail(ready)
@@ -222,7 +258,7 @@ STStep(x) ==
   /\ ready' = IF InReady(x) THEN Tail(ready) ELSE <<x>> \o Tail(ready)
   /\ Sig(~InReady(x), FALSE)
   /\ UNCHANGED <<prog, pc, alive, subpc, hub, incoming, now, fdReady, res, hasQuit,
-                 owner, waiting, timer, setup>>
+                 owner, waiting, timer, setup, sendscr>>
   /\ Log("Cycle", [t |-> Head(ready)], <<>>)
 
 \* Cycle, Timer task
@@ -239,7 +275,7 @@ TimerFinish(fires, rest) ==
   /\ Sig(FALSE, FALSE) /\ UNCHANGED incoming
 TimerStep ==
   LET rest == Tail(ready) IN
-  /\ UNCHANGED <<prog, pc, alive, subpc, hub, now, fdReady, hasQuit, owner, waiting, setup>>
+  /\ UNCHANGED <<prog, pc, alive, subpc, hub, now, fdReady, hasQuit, owner, waiting, setup, sendscr>>
   /\ res' = [res EXCEPT ![TimerId] = "none"]
   /\ CASE timer.st = "init" ->
             IF timer.cancelled THEN TimerFinish(timer.fires, rest)
@@ -257,7 +293,7 @@ TimerStep ==
 DropDead(x) ==
   /\ ready' = Tail(ready) /\ Sig(FALSE, FALSE)
   /\ UNCHANGED <<prog, pc, alive, subpc, hub, incoming, now, fdReady, res, hasQuit,
-                 owner, waiting, timer, setup>>
+                 owner, waiting, timer, setup, sendscr>>
   /\ Log("Cycle", [t |-> x], <<>>)
 
 Cycle ==
@@ -284,7 +320,7 @@ HubOutcomes ==
               ELSE CHOOSE m \in {h.until : h \in timed} : \A h \in timed : m <= h.until
       \* after firing expired tasks fast_schedule has signalled (inline: pinger)
       pingedNow == pinged \/ (expired # {} /\ ~Threaded)
-      fdw == {h \in live : h.fd \in fdReady}          \* waiters whose fd is readable
+      fdw == {h \in live : h.fd \in fdReady \/ IsW(h.fd)}   \* waiters whose fd is readable / writable
       io == pingedNow \/ fdw # {}
       resX(S, v) == [x \in Ids |-> IF x \in expired THEN "timeout" ELSE IF x \in S THEN v ELSE res[x]]
   IN
@@ -320,19 +356,19 @@ HubSelect ==
   /\ \E o \in HubOutcomes :
        /\ ready' = o.ready /\ hub' = o.hub /\ incoming' = o.incoming /\ now' = o.now
        /\ res' = o.res /\ pinged' = o.pinged /\ ev' = o.ev
-  /\ UNCHANGED <<prog, pc, alive, subpc, fdReady, hasQuit, owner, waiting, timer, setup>>
+  /\ UNCHANGED <<prog, pc, alive, subpc, fdReady, hasQuit, owner, waiting, timer, setup, sendscr>>
   /\ LogA("HubSelect", [x |-> 0], <<>>, {[ready |-> o.ready, reg |-> RegOf(o.hub)] : o \in HubOutcomes})
 
 Idle ==      \* threaded mode: SelectHub.idle() = event.wait(CYCLE_MAXIMUM); event.clear()
   /\ setup /\ Threaded
   /\ ev' = FALSE
   /\ UNCHANGED <<prog, pc, alive, subpc, ready, hub, incoming, pinged, now, fdReady, res,
-                 hasQuit, owner, waiting, timer, setup>>
+                 hasQuit, owner, waiting, timer, setup, sendscr>>
   /\ Log("Idle", [x |-> 0], <<>>)
 
 ----------------------------------------------------------------------------
 (* Environment                                                               *)
-Same == UNCHANGED <<prog, pc, alive, subpc, hub, incoming, res, hasQuit, owner, waiting, setup>>
+Same == UNCHANGED <<prog, pc, alive, subpc, hub, incoming, res, hasQuit, owner, waiting, setup, sendscr>>
 
 Advance(d) ==
   /\ setup /\ now + d <= MaxNow /\ now' = now + d
@@ -351,7 +387,7 @@ FdClear(f) ==
 \* A second, concurrent wake of the same task is modelled only when the task has nothing left
 \* to do but finish: waking a task that goes on to wait in the hub makes it runnable while
 \* it waits - a spurious wake-up the API permits but which says nothing about the scheduler.
-Quiet(t) == t \in alive /\ ~InHub(t) /\ ~InIncoming(t) /\ ~Waits(t) /\ subpc[t] = 0
+Quiet(t) == t \in alive /\ ~InHub(t) /\ ~InIncoming(t) /\ ~Waits(t) /\ subpc[t] = 0 /\ sendscr[t] = <<>>
 STPending(t) == InReady(STId(t)) \/ InReady(ST2Id(t))
 WakeOK(t) == Quiet(t) /\ ((~InReady(t) /\ ~STPending(t)) \/ pc[t] > Len(prog[t]))
 
